@@ -115,6 +115,96 @@ Qed.
 
 Print Assumptions dec_inj.
 
+(* ---------------------------------------------------------------- (F0b) vstep only upserts *)
+
+Lemma idx_key_inj : forall K a b, K ++ "_" ++ dec a = K ++ "_" ++ dec b -> a = b.
+Proof.
+  induction K as [|c K IH]; intros a b H; cbn [append] in H; injection H as H.
+  - apply dec_inj. exact H.
+  - apply IH. exact H.
+Qed.
+
+(* the entries of the vector form  key=<e1>, <e2> : key_n, key_(n+1) ... for the pieces of which something is left *)
+Fixpoint vents (K : string) (l : list string) (n : nat) : list (string * UmlBlob.pv) :=
+  match l with
+  | [] => []
+  | i :: r => if Nat.ltb 0 (String.length (py_strip (remove_char "," (mass_replace i))))
+              then (K ++ "_" ++ dec n, PStr (py_strip (remove_char "," (mass_replace i)))) :: vents K r (S n)
+              else vents K r n
+  end.
+
+Lemma vector_fold : forall K l res n,
+  fst (fold_left (fun (st : list (string * UmlBlob.pv) * nat) i =>
+                    let i' := py_strip (remove_char "," (mass_replace i)) in
+                    if Nat.ltb 0 (String.length i')
+                    then (upsert String.eqb (K ++ "_" ++ dec (snd st)) (PStr i') (fst st), S (snd st))
+                    else st) l (res, n))
+  = fold_left (fun a kv => upsert String.eqb (fst kv) (snd kv) a) (vents K l n) res.
+Proof.
+  intros K l. induction l as [|i r IH]; intros res n; [reflexivity|].
+  cbn [fold_left vents]. cbv zeta.
+  destruct (Nat.ltb 0 (String.length (py_strip (remove_char "," (mass_replace i))))).
+  - cbn [fst snd fold_left]. apply IH.
+  - apply IH.
+Qed.
+
+Lemma vents_keys_in : forall K l n k, In k (map fst (vents K l n)) -> exists i, n <= i /\ k = K ++ "_" ++ dec i.
+Proof.
+  intros K l. induction l as [|x r IH]; intros n k H; [destruct H|].
+  cbn [vents] in H. destruct (Nat.ltb 0 (String.length (py_strip (remove_char "," (mass_replace x))))).
+  - cbn [map fst In] in H. destruct H as [H|H].
+    + exists n. split; [lia|]. symmetry. exact H.
+    + destruct (IH _ _ H) as [i [H1 H2]]. exists i. split; [lia|exact H2].
+  - exact (IH _ _ H).
+Qed.
+
+Lemma vents_NoDup : forall K l n, NoDup (map fst (vents K l n)).
+Proof.
+  intros K l. induction l as [|x r IH]; intro n; [constructor|].
+  cbn [vents]. destruct (Nat.ltb 0 (String.length (py_strip (remove_char "," (mass_replace x))))); [|apply IH].
+  cbn [map fst]. constructor; [|apply IH].
+  intro Hin. apply vents_keys_in in Hin. destruct Hin as [i [H1 H2]]. apply idx_key_inj in H2. lia.
+Qed.
+
+Lemma vector_entries_vents : forall k b1 acc, exists l,
+  vector_entries k b1 acc = fold_left (fun a kv => upsert String.eqb (fst kv) (snd kv) a) (vents (mass_replace k) l 0) acc
+  /\ vector_entries k b1 [] = vents (mass_replace k) l 0.
+Proof.
+  intros k b1 acc. unfold vector_entries. cbv zeta.
+  exists (split_on "<" (remove_char ")" (remove_char "(" (remove_char TAB (remove_char LF (remove_char ">" b1)))))).
+  split.
+  - apply (vector_fold (mass_replace k)).
+  - etransitivity; [apply (vector_fold (mass_replace k))|].
+    apply (fold_upsert_app _ []). cbn [map app]. apply vents_NoDup.
+Qed.
+
+Lemma vector_entries_upserts : forall k b1 acc,
+  vector_entries k b1 acc = fold_left (fun a kv => upsert String.eqb (fst kv) (snd kv) a) (vector_entries k b1 []) acc.
+Proof.
+  intros k b1 acc. destruct (vector_entries_vents k b1 acc) as [l [H1 H2]]. rewrite H2. exact H1.
+Qed.
+
+Lemma vstep_upserts : forall acc p,
+  vstep acc p = fold_left (fun a kv => upsert String.eqb (fst kv) (snd kv) a) (vstep [] p) acc.
+Proof.
+  intros acc p. unfold vstep. cbv zeta.
+  destruct (contains "=" p); [|reflexivity].
+  destruct (split_on "=" p) as [|b0 [|b1 r]]; [reflexivity|reflexivity|].
+  destruct (Nat.ltb 0 (String.length (py_strip (remove_char "," (mass_replace b1))))); [|reflexivity].
+  destruct (contains "<" b1 && contains ">" b1); [apply vector_entries_upserts|reflexivity].
+Qed.
+
+Print Assumptions vstep_upserts.
+
+(* a key no entry has is not found *)
+Lemma lookup_notin : forall (k : string) (d : list (string * UmlBlob.pv)), ~ In k (map fst d) -> lookup String.eqb k d = None.
+Proof.
+  intros k d. induction d as [|[k' v'] r IH]; intro H; [reflexivity|].
+  cbn [lookup]. cbn [map fst In] in H. destruct (String.eqb k k') eqn:E.
+  - apply String.eqb_eq in E. exfalso. apply H. left. symmetry. exact E.
+  - apply IH. intro Hin. apply H. right. exact Hin.
+Qed.
+
 (* ---------------------------------------------------------------- (F1a) the keys of the entries *)
 
 Lemma indexed_keys : forall k ids n,
@@ -129,7 +219,8 @@ Qed.
 Lemma item_entries_keys : forall it, map fst (item_entries it) = item_keys it.
 Proof.
   destruct it as [ws k v|ws k o sep c ids|ws k o sep c ns|s|s]; try reflexivity.
-  cbn [item_entries item_keys]. apply indexed_keys.
+  - cbn [item_entries item_keys]. destruct (String.eqb (py_strip (remove_char "," (unq v))) ""); reflexivity.
+  - cbn [item_entries item_keys]. apply indexed_keys.
 Qed.
 
 Lemma entries_cons : forall it r, entries (it :: r) = (item_entries it ++ entries r)%list.
@@ -144,7 +235,7 @@ Proof.
   rewrite entries_cons, map_app, IH, item_entries_keys. reflexivity.
 Qed.
 
-(* ---------------------------------------------------------------- (F1b) the fields of simple items with distinct keys *)
+(* ---------------------------------------------------------------- (F1b) the fields of items with distinct keys *)
 
 Lemma refs_fold : forall k ids acc n,
   NoDup (map fst acc ++ map fst (indexed k ids n))%list ->
@@ -162,37 +253,40 @@ Proof.
 Qed.
 
 Lemma seg_fields_item : forall it acc,
-  item_simple it = true -> NoDup (map fst acc ++ map fst (item_entries it))%list ->
+  NoDup (map fst acc ++ map fst (item_entries it))%list ->
   seg_fields (seg_of it) acc = (acc ++ item_entries it)%list.
 Proof.
-  intros it acc Hs H. destruct it as [ws k v|ws k o sep c ids|ws k o sep c ns|s|s].
-  - cbn [seg_of seg_fields item_entries]. cbn [item_simple] in Hs. apply negb_true_iff in Hs. rewrite Hs.
-    apply upsert_new. cbn [item_entries map fst] in H. apply NoDup_remove_2 in H.
-    intro Hin. apply H. apply in_or_app. left. exact Hin.
+  intros it acc H. destruct it as [ws k v|ws k o sep c ids|ws k o sep c ns|s|s].
+  - cbn [seg_of seg_fields item_entries]. cbn [item_entries] in H.
+    destruct (String.eqb (py_strip (remove_char "," (unq v))) "").
+    + rewrite app_nil_r. reflexivity.
+    + apply upsert_new. cbn [map fst] in H. apply NoDup_remove_2 in H.
+      intro Hin. apply H. apply in_or_app. left. exact Hin.
   - cbn [seg_of seg_fields item_entries]. cbn [item_entries] in H. rewrite refs_fold by exact H. reflexivity.
   - cbn [seg_of seg_fields item_entries]. rewrite app_nil_r. reflexivity.
-  - discriminate Hs.
-  - discriminate Hs.
+  - cbn [seg_of seg_fields item_entries]. cbn [item_entries] in H.
+    rewrite vstep_upserts. apply fold_upsert_app. exact H.
+  - cbn [seg_of item_entries]. rewrite app_nil_r. reflexivity.
 Qed.
 
 Lemma fold_seg_fields : forall its acc,
-  forallb item_simple its = true -> NoDup (map fst acc ++ map fst (entries its))%list ->
+  NoDup (map fst acc ++ map fst (entries its))%list ->
   fold_left (fun acc s => seg_fields s acc) (map seg_of its) acc = (acc ++ entries its)%list.
 Proof.
-  induction its as [|it r IH]; intros acc Hs H.
+  induction its as [|it r IH]; intros acc H.
   - cbn [map fold_left]. unfold entries. cbn [flat_map]. rewrite app_nil_r. reflexivity.
-  - cbn [map fold_left]. cbn [forallb] in Hs. apply andb_true_iff in Hs. destruct Hs as [Hs1 Hs2].
+  - cbn [map fold_left].
     rewrite entries_cons, map_app, app_assoc in H.
-    rewrite seg_fields_item; [|exact Hs1|exact (NoDup_app_left _ _ _ H)].
-    rewrite IH; [|exact Hs2|rewrite map_app; exact H].
+    rewrite seg_fields_item; [|exact (NoDup_app_left _ _ _ H)].
+    rewrite IH; [|rewrite map_app; exact H].
     rewrite entries_cons, app_assoc. reflexivity.
 Qed.
 
 Lemma segs_fields_entries : forall its,
-  forallb item_simple its = true -> nodups (entry_keys its) = true ->
+  nodups (entry_keys its) = true ->
   segs_fields (map seg_of its) = entries its.
 Proof.
-  intros its Hs Hn. unfold segs_fields. rewrite fold_seg_fields; [reflexivity|exact Hs|].
+  intros its Hn. unfold segs_fields. rewrite fold_seg_fields; [reflexivity|].
   cbn [map app]. rewrite entries_keys. apply nodups_NoDup. exact Hn.
 Qed.
 
@@ -265,11 +359,11 @@ Qed.
 (* ---------------------------------------------------------------- (F1) *)
 
 Lemma body_explicit : forall its,
-  forallb item_simple its = true -> nodups (entry_keys its) = true ->
+  nodups (entry_keys its) = true ->
   forallb (fun k => negb (prefixb "child_" k)) (entry_keys its) = true ->
   body_pv its = PDict (entries its ++ numbered (map node_pv (children_of its)) 0)%list.
 Proof.
-  intros its Hs Hn Hp. unfold body_pv.
+  intros its Hn Hp. unfold body_pv.
   rewrite segs_fields_entries by assumption. rewrite number_children_numbered.
   apply with_children_numbered; rewrite entries_keys; [apply nodups_NoDup; exact Hn|exact Hp].
 Qed.
@@ -293,6 +387,11 @@ Lemma top_explicit : forall id nm ty its tl,
   top_pv (WNode id nm ty its tl) = PDict [("id", PStr (String "b" (String SQ id))); ("name", PStr (name_text nm)); ("type", PStr (ty ++ " '")); ("child_0", body_pv its)].
 Proof. intros. unfold top_pv. rewrite number_children_one. apply with_children_head. Qed.
 
+(* the same for a row whose element NAME may hold colons (UmlBlobDefs.top_head) *)
+Lemma top_explicit_c : forall id nm ty its tl,
+  top_pv_c (WNode id nm ty its tl) = PDict (top_head id nm ty ++ [("child_0", body_pv its)])%list.
+Proof. intros. unfold top_pv_c, top_head. rewrite number_children_one. apply with_children_head. Qed.
+
 (* ---------------------------------------------------------------- (F3) lookups in the entries of a layout *)
 
 Lemma entry_keys_app : forall a b, entry_keys (a ++ b)%list = (entry_keys a ++ entry_keys b)%list.
@@ -300,15 +399,19 @@ Proof. intros a b. unfold entry_keys. apply flat_map_app. Qed.
 
 Lemma items_of_cons : forall ws f s r,
   items_of ws f (s :: r) =
-  (match s with SNoise k v => [IField ws k v] | STag t => match f t with Some it => [it] | None => [] end end ++ items_of ws f r)%list.
+  (match s with SNoise k v => [IField ws k v] | STag t => match f t with Some it => [it] | None => [] end | SInert it => [it] end
+   ++ items_of ws f r)%list.
 Proof. reflexivity. Qed.
 
 Lemma entry_keys_ws : forall ws f l, entry_keys (items_of ws f l) = entry_keys (items_of "" f l).
 Proof.
   intros ws f l. induction l as [|s r IH]; [reflexivity|].
   rewrite !items_of_cons, !entry_keys_app, IH. f_equal.
-  destruct s as [k v|t]; reflexivity.
+  destruct s as [k v|t|it]; reflexivity.
 Qed.
+
+Lemma entry_keys_one : forall it, entry_keys [it] = item_keys it.
+Proof. intro it. unfold entry_keys. cbn [flat_map]. apply app_nil_r. Qed.
 
 Lemma tag_item_entries : forall f t,
   entries (match f t with Some it => [it] | None => [] end) = tag_entries f t.
@@ -317,20 +420,29 @@ Proof.
   rewrite entries_cons. apply app_nil_r.
 Qed.
 
-Lemma lookup_drop_noise : forall ws f l k, (forall kn vn, In (SNoise kn vn) l -> kn <> k) ->
+Lemma lookup_inert : forall k it, ~ In k (item_keys it) -> lookup String.eqb k (entries [it]) = None.
+Proof.
+  intros k it H. apply lookup_notin. rewrite entries_keys, entry_keys_one. exact H.
+Qed.
+
+Lemma lookup_drop_noise : forall ws f l k,
+  (forall s, In s l -> match s with SNoise kn _ => kn <> k | SInert it => ~ In k (item_keys it) | STag _ => True end) ->
   lookup String.eqb k (entries (items_of ws f l)) = lookup String.eqb k (flat_map (tag_entries f) (tags_of l)).
 Proof.
   intros ws f l k. induction l as [|s r IH]; intro Hn; [reflexivity|].
   assert (IH' : lookup String.eqb k (entries (items_of ws f r)) = lookup String.eqb k (flat_map (tag_entries f) (tags_of r))).
-  { apply IH. intros kn vn Hin. apply (Hn kn vn). right. exact Hin. }
+  { apply IH. intros s0 Hin. apply (Hn s0). right. exact Hin. }
+  pose proof (Hn s (or_introl eq_refl)) as Hs.
   rewrite items_of_cons, entries_app, lookup_app, IH'.
-  destruct s as [kn vn|t].
+  destruct s as [kn vn|t|it].
   - change (tags_of (SNoise kn vn :: r)) with (tags_of r).
-    change (entries [IField ws kn vn]) with [(kn, PStr (unq vn))]. cbn [lookup].
-    destruct (String.eqb k kn) eqn:E; [|reflexivity].
-    apply String.eqb_eq in E. exfalso. apply (Hn kn vn); [left; reflexivity|]. symmetry. exact E.
+    rewrite lookup_inert; [reflexivity|].
+    cbn [item_keys]. destruct (String.eqb (py_strip (remove_char "," (unq vn))) ""); [intros []|].
+    intros [E|[]]. exact (Hs E).
   - change (tags_of (STag t :: r)) with (t :: tags_of r). cbn [flat_map].
     rewrite tag_item_entries, lookup_app. reflexivity.
+  - change (tags_of (SInert it :: r)) with (tags_of r).
+    rewrite lookup_inert; [reflexivity|exact Hs].
 Qed.
 
 Lemma tag_eqb_eq : forall a b, tag_eqb a b = true <-> a = b.
@@ -360,9 +472,59 @@ Qed.
 Lemma has_tag_tags_of : forall t l, has_tag t l = existsb (tag_eqb t) (tags_of l).
 Proof.
   intros t l. unfold has_tag. induction l as [|s r IH]; [reflexivity|].
-  destruct s as [k v|x].
+  destruct s as [k v|x|it].
   - change (tags_of (SNoise k v :: r)) with (tags_of r). cbn [existsb orb]. exact IH.
   - change (tags_of (STag x :: r)) with (x :: tags_of r). cbn [existsb]. rewrite IH, (tag_eqb_sym x t). reflexivity.
+  - change (tags_of (SInert it :: r)) with (tags_of r). cbn [existsb orb]. exact IH.
+Qed.
+
+(* ---------------------------------------------------------------- (F4) inert properties *)
+
+Lemma inerts_ok_in : forall K l it, inerts_ok K l = true -> In (SInert it) l -> inert_ok K it = true.
+Proof.
+  intros K l it H Hin. unfold inerts_ok in H. rewrite forallb_forall in H. exact (H _ Hin).
+Qed.
+
+(* a key of an inert property is none of the keys the reader looks up in such an element, and holds none of the words it
+   scans the keys for *)
+Lemma inert_key_free : forall K l it k, inerts_ok K l = true -> In (SInert it) l -> In k (item_keys it) ->
+  existsb (String.eqb k) (kind_keys K) = false /\ forallb (fun p => negb (contains p (lower k))) (kind_parts K) = true.
+Proof.
+  intros K l it k H Hin Hk. pose proof (inerts_ok_in _ _ _ H Hin) as Hi.
+  unfold inert_ok in Hi. apply andb_true_iff in Hi. destruct Hi as [Hi _].
+  apply andb_true_iff in Hi. destruct Hi as [_ Hi].
+  rewrite forallb_forall in Hi. specialize (Hi _ Hk).
+  apply andb_true_iff in Hi. destruct Hi as [H1 H2].
+  split; [apply negb_true_iff; exact H1|exact H2].
+Qed.
+
+Lemma children_of_app : forall a b, children_of (a ++ b)%list = (children_of a ++ children_of b)%list.
+Proof. intros a b. unfold children_of. apply flat_map_app. Qed.
+
+(* the owned elements of a layout: those of its tags and of its inert properties, in the order written *)
+Lemma children_of_layout : forall ws f l,
+  children_of (items_of ws f l) =
+  flat_map (fun s => match s with
+                     | STag t => match f t with Some it => kids_of it | None => [] end
+                     | SInert it => kids_of it
+                     | SNoise _ _ => []
+                     end) l.
+Proof.
+  intros ws f l. induction l as [|s r IH]; [reflexivity|].
+  rewrite items_of_cons, children_of_app, IH. cbn [flat_map]. f_equal.
+  destruct s as [k v|t|it].
+  - reflexivity.
+  - destruct (f t) as [it|]; [|reflexivity]. rewrite children_of_cons. apply app_nil_r.
+  - rewrite children_of_cons. apply app_nil_r.
+Qed.
+
+(* an element owned by an inert property is none the reader would take for a member *)
+Lemma inert_child_ok : forall K l ws k o sep c ns n,
+  inerts_ok K l = true -> In (SInert (IChildren ws k o sep c ns)) l -> In n ns -> kind_child_ok K (node_type n) = true.
+Proof.
+  intros K l ws k o sep c ns n H Hin Hn. pose proof (inerts_ok_in _ _ _ H Hin) as Hi.
+  unfold inert_ok in Hi. apply andb_true_iff in Hi. destruct Hi as [_ Hi].
+  rewrite forallb_forall in Hi. exact (Hi _ Hn).
 Qed.
 
 Lemma lookup_numbered_none : forall k vals n, prefixb "child_" k = false -> lookup String.eqb k (numbered vals n) = None.
@@ -380,3 +542,7 @@ Print Assumptions lookup_drop_noise.
 Print Assumptions entry_keys_ws.
 Print Assumptions node_explicit.
 Print Assumptions top_explicit.
+Print Assumptions seg_fields_item.
+Print Assumptions inert_key_free.
+Print Assumptions children_of_layout.
+Print Assumptions inert_child_ok.
